@@ -175,3 +175,11 @@ META["C25"] = E("exhaustive + sampled round-trip oracle over the real origin enc
     "Sequences longer than 40 edges and ingredient/index values between the boundary classes are only sampled.",
     "native loop + Miri")
 HOOK_COMMITS.append("cb42a1b")
+
+META["C26"] = E("differential oracle across a serde_json round trip: values vs reference interpreter, executions vs memo validity",
+    "Exploration: ~6*10^4 (quick) to 3*10^6 (thorough) seeded (program, history, cut point) cases in the persistence build: serialize after an "
+    "arbitrary history (including deletions of tracked structs, interned-slot reclamation, memos stale at the time of serialization), "
+    "restore into a fresh database, then compare every result with the reference right after the restore, through the rest of the history "
+    "and after a further revision; persisted memos verified in the revision of serialization must be served without executing; a panic in "
+    "serialize/deserialize is a violation. Known findings F3, F14 and F15 are reported as KNOWN-FINDING by signature.",
+    SINGLE_NOTE, "E-single (persist cfg)")
